@@ -39,6 +39,7 @@ type scenario struct {
 	CloseAfterUs int     `json:"closeAfterUs"`
 	WriterCloses int     `json:"writerCloses,omitempty"` // k>0: writer #k-1 closes the buffer right after its last Write (the two wake-ups follow each other directly)
 	Deadline    []dlOp   `json:"deadline"`    // one worker issuing SetReadDeadline calls
+	CloseArmed  bool     `json:"closeArmed,omitempty"` // the final Close happens with a read deadline a millisecond ahead; once it has passed, reads fail with a timeout until it is cleared
 	SeqPrefill  int      `json:"seqPrefill"`  // sequential sub-oracle: packets written and read back by main first
 }
 
@@ -72,6 +73,7 @@ func gen(r *harn.Rng, tier string) interface{} {
 	if r.Bool(0.2) {
 		sc.SeqPrefill = r.Range(1, 4)
 	}
+	sc.CloseArmed = r.Bool(0.25)
 	if r.Bool(0.004) {
 		// a crowd: more goroutines waiting in Read than a byte-sized counter can hold
 		sc.Readers = nil
@@ -299,6 +301,9 @@ func run(env *simrt.Env, sci interface{}) {
 
 	// phase 2: close, everything must come back
 	_ = b.SetReadDeadline(time.Time{})
+	if sc.CloseArmed {
+		_ = b.SetReadDeadline(env.Now().Add(time.Millisecond))
+	}
 	if err := b.Close(); err != nil {
 		env.Fail("C08/close-error", "Close: %v", err)
 		return
@@ -316,6 +321,15 @@ func run(env *simrt.Env, sci interface{}) {
 	}
 	// drain what is left: remaining packets are still readable, then EOF for ever
 	buf := make([]byte, 4096)
+	if sc.CloseArmed {
+		// Close does not change the deadline: it has passed by now (the system is quiescent)
+		if _, err := b.Read(buf); !isTimeout(err) {
+			env.Fail("C08/no-timeout-after-deadline", "the read deadline was a millisecond ahead when the buffer was closed and has passed since; Read returned %v, want a timeout error until the deadline is changed", err)
+			return
+		}
+		_ = b.SetReadDeadline(time.Time{})
+		env.Probe("deadline-passed-after-close")
+	}
 	for {
 		n, err := b.Read(buf)
 		if errors.Is(err, io.EOF) {
